@@ -272,4 +272,43 @@ def cgiStdin (bodyLen : Int) (segs : List Bytes) : StdinSt :=
   let out := segs.flatten
   { out := out, eof := (out.length : Int) = bodyLen }
 
+/-! ### HTTP/2: DATA frames -> request body (h2_recv_data(), h2_recv_end_data() of h2.c) -/
+
+structure DataFrame where
+  payload : Bytes            -- frame data without Pad Length byte and padding
+  pad : Option Nat := none   -- PADDED flag with its pad length (padding is discarded)
+  endStream : Bool := false
+deriving Repr
+
+inductive H2StreamState
+  | open | halfClosedRemote | closed
+deriving Repr, DecidableEq
+
+structure H2Body where
+  out : Bytes := []                    -- r->reqbody_queue (nothing consumed yet)
+  bodyLen : Int := -1                  -- r->reqbody_length (-1: no Content-Length)
+  state : H2StreamState := .open
+  rst : Nat := 0                       -- RST_STREAM frames sent for the stream
+deriving Repr
+
+/-- one DATA frame on the stream (flow-control windows are never the limit here: lighttpd leaves
+    the stream window untouched and re-credits the connection window).  The result does not
+    depend on how the frame bytes were split across network reads. -/
+def h2RecvData (st : H2Body) (f : DataFrame) : H2Body :=
+  let total : Int := ((st.out.length + f.payload.length : Nat) : Int)
+  if st.state ≠ .open then
+    { st with rst := st.rst + 1, state := .closed }                 -- STREAM_CLOSED
+  else if st.bodyLen ≥ 0 ∧ st.bodyLen < total then
+    { st with rst := st.rst + 1, state := .closed }                 -- more data than Content-Length
+  else if f.endStream then
+    if st.bodyLen = -1 then
+      { st with out := st.out ++ f.payload, bodyLen := total, state := .halfClosedRemote }
+    else if st.bodyLen ≠ total then
+      { st with rst := st.rst + 1, state := .closed }               -- less data than Content-Length
+    else { st with out := st.out ++ f.payload, state := .halfClosedRemote }
+  else { st with out := st.out ++ f.payload }
+
+def h2Body (contentLength : Int) (frames : List DataFrame) : H2Body :=
+  frames.foldl h2RecvData { bodyLen := contentLength }
+
 end LtVerif
